@@ -166,7 +166,8 @@ func (r *WordRenderer) renderInlineContent(node ast.Node, para *document.Paragra
 			// 处理软换行（单个\n）
 			// goldmark将单个\n解析为多个Text节点，第一个节点的SoftLineBreak为true
 			// 在Markdown中，软换行通常应该被渲染为空格
-			if n.SoftLineBreak() {
+			// 硬换行（行尾两个空格或反斜杠）同样不能让前后两个词连在一起
+			if n.SoftLineBreak() || n.HardLineBreak() {
 				para.AddFormattedText(" ", nil)
 			}
 
@@ -611,7 +612,8 @@ func (r *WordRenderer) renderTaskItemContent(parent ast.Node, para *document.Par
 			para.AddFormattedText(text, nil)
 			
 			// 处理软换行（单个\n）
-			if n.SoftLineBreak() {
+			// 硬换行（行尾两个空格或反斜杠）同样不能让前后两个词连在一起
+			if n.SoftLineBreak() || n.HardLineBreak() {
 				para.AddFormattedText(" ", nil)
 			}
 		case *ast.Emphasis:
